@@ -453,9 +453,9 @@ def rule_sizes(chk, prog, cg):
 def run(chk):
     prog = chk.load()
     cg = CallGraph(prog)
-    rule_translators(chk, prog)
-    rule_creator(chk, prog)
-    rule_projection(chk, prog)
-    rule_makefeasible(chk, prog)
-    rule_majorization_fresh(chk, prog)
-    rule_sizes(chk, prog, cg)
+    chk.guard(rule_translators, chk, prog)
+    chk.guard(rule_creator, chk, prog)
+    chk.guard(rule_projection, chk, prog)
+    chk.guard(rule_makefeasible, chk, prog)
+    chk.guard(rule_majorization_fresh, chk, prog)
+    chk.guard(rule_sizes, chk, prog, cg)
